@@ -9,10 +9,15 @@
     built the spec's value number i) and must produce the spec's bytes and read back the spec's structure.
 (A) Trace_Value: random and boundary shapes (depth <= 8, wide maps whose keys collide in the table -- modulo its size and in the
     full 32-bit hash --, 40000-item lists, length thresholds) and DEEP values: chains of 64 .. 5000 (thorough 20000) containers of
-    mixed kinds with and without siblings, logged by their spine (gen deep).
+    mixed kinds with and without siblings, logged by their spine (gen deep); every counted type (the four arrays, list, map,
+    int map) with its element count at and at both sides of every power of two up to the count cell's maximum (gen counts).
 (O) Trace_ValueObj: one real value object is written, changed through every public mutator on itself or on a child obtained
     from it (every chain of container kinds x every level x every mutator: gen mutenum; random: gen mut), and written again;
-    every write is judged against the content the calls define at that moment."""
+    every write is judged against the content the calls define at that moment.  Every public READ-ONLY method (type code,
+    sizes, getters, key enumeration, textual form, Write/WriteValue of a node, summary getters, Equals/CompareTo against the
+    node itself / another node / a copy / a copy in the opposite order / another value) is called between the writes
+    (gen lookenum: every chain x level x method; gen mut: mixed with the mutators): its result is what the content defines
+    and it is an identity step -- the following writes are judged against the unchanged content, entry order included."""
 from concurrent.futures import ThreadPoolExecutor
 
 
@@ -45,6 +50,8 @@ def traces(run, th):
     run.selftest(out, meta, gen="enum", spec="Trace_ValueEnumT" if th else "Trace_ValueEnum", field="i")
     # object histories: corrupted bytes of a write, and a call that is not reported (the content moves on without the specification)
     run.selftest(out, meta, gen="mutenum", spec="Trace_ValueObj", field="out", remove_match={"ev": "Mut"})
+    # a read-only call that reports something the content does not define (removing one is no error: it is an identity step)
+    run.selftest(out, meta, gen="lookenum", spec="Trace_ValueObj", field="r", removed=False)
     run.assumptions += [
         "the value handed to the spec is the projection of the generator's shape (standard library only); the value read back is projected from the real object's exported fields and public getters, containers in the order their public enumeration yields",
         "arrays of more than 32767 elements and NaN-free-ness are not assumed: NaN bit patterns are part of the inputs; element counts beyond what the count fields can represent are outside the property",
